@@ -23,8 +23,9 @@ Definition is_surrounded (a b : si) : bool :=
   else surrounds b (lb a) && surrounds b (ub a) &&
        (((lb b =? lb a) && (ub b =? ub a)) || negb (surrounds a (lb b)) || negb (surrounds a (ub b))).
 
-(* n_values = _wrapped_cardinality(lb, ub, bits) // stride + 1 *)
+(* n_values = 1 for stride 0 (a single value), else _wrapped_cardinality(lb, ub, bits) // stride + 1 *)
 Definition n_values (a : si) : res Z :=
+  if stride a =? 0 then Ok 1 else
   do q <- py_floordiv (modN a (ub a - lb a) + 1) (stride a); Ok (q + 1).
 
 Definition si_union (a b : si) : res si :=
